@@ -405,7 +405,7 @@ def jobs_for(prop, tier):
         return jobs_simplify(tier)
     if prop == 'C07':
         return [j for j in jobs_option_below(tier) if j[1][3] == 'combinations']
-    return {'C01': jobs_c01, 'C02': jobs_c02, 'C03': jobs_c03, 'C04': jobs_c04, 'C06': jobs_c06, 'C08': jobs_c08, 'C05': jobs_c05, 'C09': jobs_c09}.get(prop, lambda t: [])(tier)
+    return {'C01': jobs_c01, 'C02': jobs_c02, 'C03': jobs_c03, 'C04': jobs_c04, 'C06': jobs_c06, 'C08': jobs_c08, 'C10': jobs_c10, 'C05': jobs_c05, 'C09': jobs_c09}.get(prop, lambda t: [])(tier)
 
 
 # ------------------------------------------------------------------------------------------------ C01: getitem_next of list nodes
@@ -1486,4 +1486,127 @@ def jobs_c02(tier):
                     js.append((h_convert, (cls, p, v, meth, extra, kind), 600))
         else:
             js.append((h_convert, (cls, (0, 0, 0), None, meth, extra, kind), 600))
+    return js
+
+
+# ------------------------------------------------------------------------------------------------ C10: RecordArray - positional operations act on every field alike
+def build_record(nc, nfields, length, name='node'):
+    """RecordArray with `nfields` opaque field contents (each at least `length` long, in its own atom space) and no field names (a tuple)"""
+    fo, sz, al, fields = nc.layout_of('REC', '_ZNK7awkward11RecordArray6lengthEv')
+    BASE = 1 << 32
+    parr, lens = [], []
+    for k in range(nfields):
+        if k == 0:
+            cp, clen = nc.content0, nc.lencontent
+        else:
+            clen = nc.m.bv('lencontent%d' % k)
+            kk = z3.BitVec('k!', 64)
+            cp = nc.new_content_in(nc.m.mem, 'content_%d' % k, clen, z3.Lambda([kk], kk + k * BASE), const=True)
+        nc.m.assume(clen >= length, clen <= 2 ** 20)
+        parr += [cp, NULL]; lens.append(clen)
+    cells = {}
+    for i, p in enumerate(parr):
+        cells[8 * i] = (p, 8)
+    nc.m.record(name + '_contents', cells, const=True)
+    nb = 16 * nfields
+    hdr = nc.content_header(name, nc.vptr_of('N7awkward11RecordArrayE', 'REC'))
+    hdr.update({fo[1]: (NULL, 8), fo[1] + 8: (NULL, 8),
+                fo[2]: (Ptr(name + '_contents', 0) if nfields else NULL, 8), fo[2] + 8: (Ptr(name + '_contents', nb) if nfields else NULL, 8), fo[2] + 16: (Ptr(name + '_contents', nb) if nfields else NULL, 8),
+                fo[3]: (NULL, 8), fo[3] + 8: (NULL, 8), fo[4]: (BV(length), 8), fo[5]: (NULL, 8), fo[5] + 8: (NULL, 8), fo[5] + 16: (NULL, 8)})
+    this = nc.m.record(name, hdr, const=True)
+    vals = [[Elem(BV(i + k * BASE)) for k in range(nfields)] for i in range(length)]
+    return this, vals, lens
+
+
+@guard
+def h_record(nfields, length, op, arg):
+    """RecordArray: a positional operation (carry by an index, a range, one field by position) treats every field alike: record i of the result
+    holds, field by field, what the same operation selects from each field content; field order and record count follow the operation"""
+    nc = NodeCtx(['REC', 'IA', 'IDX', 'CNT', 'UTL', 'KD', 'IDS'], [], unwind=max(12, 2 * nfields + length + (arg if isinstance(arg, int) else 4) + 8))
+    this, vals, lens = build_record(nc, nfields, length)
+    nc.m.record('ret', {})
+    BASE = 1 << 32
+    if op == 'carry':
+        n = arg
+        data = nc.m.array('carrydata', ('i', 64), max(1, n), const=True)
+        a0 = z3.Array('carrydata', z3.BitVecSort(64), z3.BitVecSort(64))
+        iv = [z3.Select(a0, BV(i)) for i in range(n)]
+        for v in iv:
+            nc.m.assume(v >= 0, v < length)
+        if n >= 2:
+            nc.m.assume(z3.Or([iv[i] != i for i in range(n)]))       # not the contiguous 0..n-1 (that case is the range below)
+        cells = {}
+        nc.index_cells(cells, 0, data, BV(0), BV(n))
+        idx = nc.m.record('carryindex', cells, const=True)
+        out = nc.m.call('_ZNK7awkward11RecordArray5carryERKNS_7IndexOfIlEEb', [Ptr('ret', 0), this, idx, z3.BitVecVal(0, 1)])
+        want = [[Elem(iv[i] + k * BASE) for k in range(nfields)] for i in range(n)]
+        desc = 'carry by %d indexes' % n
+    elif op == 'range':
+        a, b = arg
+        out = nc.m.call('_ZNK7awkward11RecordArray20getitem_range_nowrapEll', [Ptr('ret', 0), this, BV(a), BV(b)])
+        want = vals[a:b]
+        desc = 'range [%d:%d]' % (a, b)
+    else:
+        k = arg
+        out = nc.m.call('_ZNK7awkward11RecordArray5fieldEl', [Ptr('ret', 0), this, BV(k)])
+        want = None
+        desc = 'field %d' % k
+    obls = [('%s does not raise' % desc, out.raised)] if not (op == 'field' and not (0 <= arg < nfields)) else [('a field position outside the record raises', z3.Not(out.raised))]
+    rcell = nc.m.cell('ret', 0)
+    for g, res in (nodeh.decode_cases(nc, out.mem, rcell) if rcell is not None else []):
+        if res is None:
+            if not (op == 'field' and not (0 <= arg < nfields)):
+                obls.append(('a result is returned', z3.And(g, z3.Not(out.raised))))
+            continue
+        if op == 'field':
+            if res['cls'] != 'opaque' or res['name'] != ('content0' if arg == 0 else 'content_%d' % arg):
+                obls.append(('field(%d) is the content of field %d' % (arg, arg), z3.And(g, z3.Not(out.raised))))
+        else:
+            if nfields == 0:
+                obls.append(('the record count follows the operation', z3.And(g, res['length'] != len(want))) if res['cls'] == 'record' else ('a RecordArray is returned', g))
+            else:
+                obls += [(nm, z3.And(g, z3.Not(out.raised), c)) for nm, c in compare(value(res), want)]
+            if res['cls'] == 'record':
+                obls.append(('the field names (none here) are kept', z3.And(g, z3.Not(nc.m.eng.is_null(res['recordlookup'])))))
+    def replay(model, ent):
+        ev = lambda t: model.eval(t, model_completion=True).as_signed_long()
+        lcs = [max(ev(l), length, 1) for l in lens]
+        if max(lcs + [0]) > 100:
+            return False, 'content too long to replay', {}
+        head = ''.join('i64 %s ' % fullnative.ints([1000 * k + j for j in range(lcs[k])]) for k in range(nfields)) + 'tuple %d %d ' % (nfields, length)
+        recs = [{str(k): 1000 * k + i for k in range(nfields)} for i in range(length)]
+        if op == 'carry':
+            cv = [ev(v) for v in iv]
+            prog, exp = head + 'carry %s' % fullnative.ints(cv), [recs[v] for v in cv]
+        elif op == 'range':
+            prog, exp = head + 'view %d %d' % arg, recs[arg[0]:arg[1]]
+        else:
+            prog, exp = head + 'fieldat %d' % arg, ([1000 * arg + j for j in range(lcs[arg])] if 0 <= arg < nfields else None)
+        kind_, got = fullnative.akrun(prog)
+        payload = dict(program=prog, native=[kind_, got], expected=exp)
+        if exp is None:
+            if kind_ != 'ERR':
+                return True, 'RecordArray with %d fields: field(%d) is outside the record, but the native library gives %s %s' % (nfields, arg, kind_, str(got)[:200]), payload
+            return False, 'native library raises', payload
+        if nfields == 0 and op != 'field':
+            exp = [{} for _ in exp]
+        if kind_ != 'OK' or got != exp:
+            return True, 'RecordArray(%d fields, %d records) %s: native library %s %s, expected %s' % (nfields, length, desc, kind_, str(got)[:150], exp), payload
+        return False, 'native library agrees (%s)' % (got,), payload
+    return mdischarge(nc.m, 'RecordArray(%d fields, %d records) %s' % (nfields, length, desc), obls, [], replay=replay, prefer=[l <= length + 2 for l in lens],
+                      extra=dict(bounds='%d fields, %d records, operation shape concrete (case split); carry index values and content lengths symbolic' % (nfields, length)))
+
+
+def jobs_c10(tier):
+    js = []
+    for nf in (0, 1, 2, 3):
+        for length in (0, 2, 3):
+            for n in (0, 1, 2, 3):
+                if length or n == 0:
+                    js.append((h_record, (nf, length, 'carry', n), 600))
+            for a, b in ((0, 0), (0, length), (1, length), (0, max(0, length - 1)), (1, 2)):
+                if 0 <= a <= b <= length:
+                    js.append((h_record, (nf, length, 'range', (a, b)), 600))
+        for k in range(-1, nf + 1):
+            js.append((h_record, (nf, 2, 'field', k), 600))
     return js
